@@ -1,5 +1,5 @@
 """C16 - SM to SSC conversion keeps every property, chart, timing and note (structural clauses)."""
-from ..rules import convert, fwd, readers, writers, baseline, views, state
+from ..rules import convert, fwd, readers, writers, baseline, views, state, timing
 
 EXPLANATION = (
     "Static rule checking of sm_to_ssc: R-ALIAS every aliased item property of the source class resolves to the same key/alias "
@@ -41,6 +41,11 @@ def c_views(ctx):
     state.shared_state(ctx, ['simfile.convert:sm_to_ssc'], 'the conversion of one simfile depends on that simfile, the templates and the policy only')
 
 
+def c_timing(ctx):
+    timing.timing_source_rule(ctx)
+    timing.timingdata_fields(ctx)
+
+
 def c_api(ctx):
     baseline.surface(ctx, "C16: documented surface", modules=['simfile.convert'], keys=['simfile.ssc.SSCSimfile', 'simfile.ssc.SSCChart', 'simfile.sm.SMSimfile'])
 
@@ -51,5 +56,6 @@ CLAUSES = [
     ("C16.4", "negative BPM/stop refusal first (R-ORDER)", c4),
     ("C16.6", "the result's serialization loads back as an equal SSC simfile: every key is written, the notes item (by key) last (shared with C02)", c5),
     ("C16.7", "properties are read and written through the attribute views under the documented key (alias exactly when the standard key is absent); no process-wide state between conversions (R-STATE)", c_views),
+    ("C16.8", "the timing reader the comparison goes through: which object the timing is read from, and that every list (WARPS by key, as SM simfiles have no such attribute) and the offset are read from it (shared with C15)", c_timing),
     ("C16.api", "public surface: signatures and defaults, constants, enumerations, blank templates, base classes as confirmed (R-API)", c_api),
 ]
